@@ -2,6 +2,8 @@
 import itertools
 import random
 
+import datetime
+
 from mc import alphabets as A
 
 POSITIONS = ('top', 'array', 'table')
@@ -60,9 +62,53 @@ RECORD_KEYS = [['a'], ['a', 'b', 'c'], ['queue', 'reason', 'count', 'time'],
                ['', 'a'], ['\uffff', '\U00010000']]
 
 
+class FoldZone(datetime.tzinfo):
+    """A zone with one repeated hour (offset +2h before 2021-10-31 01:00 UTC,
+    +1h after), honouring fold - two datetimes with the same wall time in the
+    repeated hour compare and hash equal and are an hour apart."""
+
+    def utcoffset(self, dt):
+        wall = dt.replace(tzinfo=None)
+        if wall < datetime.datetime(2021, 10, 31, 2, 0):
+            return datetime.timedelta(hours=2)
+        if wall < datetime.datetime(2021, 10, 31, 3, 0) and not dt.fold:
+            return datetime.timedelta(hours=2)
+        return datetime.timedelta(hours=1)
+
+    def dst(self, dt):
+        return self.utcoffset(dt) - datetime.timedelta(hours=1)
+
+    def tzname(self, dt):
+        return 'FOLD'
+
+
+_FOLD = FoldZone()
+
+
+def equal_but_different():
+    D = A.D
+    wall = datetime.datetime(2021, 10, 31, 2, 30, tzinfo=_FOLD)
+    pairs = [(wall, wall.replace(fold=1)),
+             (wall.replace(minute=0), wall.replace(minute=0, fold=1)),
+             (1, True), (0, False), (1, 1.0), (0, 0.0), (0.0, -0.0),
+             (1, D('1')), (D('1.0'), D('1.00')), (D('0'), D('-0')),
+             (1.5, D('1.5')), (2**53, float(2**53)),
+             (A.dt(1600000000), A.dt(1600000000, A.FIXED_OFFSETS[0])),
+             ('a', 'a'[:]), ('', ''), ([], []), ({}, {}),
+             ([1], [True]), ({'k': 1}, {'k': 1.0}), ([0.0], [-0.0])]
+    try:
+        import zoneinfo
+        z = zoneinfo.ZoneInfo('Europe/Berlin')
+        real = datetime.datetime(2021, 10, 31, 2, 30, tzinfo=z)
+        pairs.append((real, real.replace(fold=1)))
+    except Exception:  # noqa - no tz database
+        pass
+    return pairs
+
+
 def value_tasks(tier):
     out = [('scalars',), ('keys',), ('deep',), ('onehot',), ('mixed',),
-           ('shared',), ('records',)]
+           ('shared',), ('records',), ('equal-siblings',)]
     # every nesting depth: up to 32 acceptance is required, beyond it
     # whatever is accepted must still round-trip (and equal the reference)
     out += [('depths', 1, 17), ('depths', 17, 33), ('depths', 33, 80),
@@ -207,6 +253,17 @@ def values(task, tier, seed=0):
             yield {'a': [leaf, leaf], 'b': {'c': leaf}, 'z': leaf}
             mid = {'inner': leaf, 'again': leaf}
             yield {'m1': mid, 'm2': mid, 'list': [mid, mid]}
+    elif kind == 'equal-siblings':
+        # neighbours that compare (and hash) EQUAL yet are different values:
+        # whatever is remembered per value within one container conflates them
+        for pair in equal_but_different():
+            a, b = pair
+            yield [a, b]
+            yield [b, a]
+            yield [a, b, a, b]
+            yield {'x': a, 'y': b}
+            yield {'l': [a], 'm': [b], 'n': [[a, b]]}
+            yield [a, [b], {'k': a, 'j': b}]
     elif kind == 'mixed':
         yield list(A.SCALARS)
         yield {'k%03d' % i: s for i, s in enumerate(A.SCALARS)}
